@@ -428,8 +428,10 @@ func (s *grpcServer) Write(srv bytestream.ByteStream_WriteServer) error {
 				}
 
 				exists, _ := s.cache.Contains(srv.Context(), cache.CAS, hash, size)
-				if exists {
+				if exists && !(size == 0 && hash == emptySha256) {
 					// Blob already exists, return without writing anything.
+					// (The empty blob always "exists": let Put check that no
+					// data is sent for it.)
 					if cmp == casblob.Identity {
 						resp.CommittedSize = size
 					} else {
